@@ -19,5 +19,9 @@ def check(chk, fx):
     caprules.cap_t(chk, fx)
     caprules.cap_i(chk, fx)
     caprules.cap_s(chk, fx)
+    # the size analyser and the builder must read a pattern the same way (same pattern parser, same options): otherwise
+    # they count different automata (a blank skipped by one and not by the other)
+    from . import c17
+    c17.rej4(chk, fx)
     idxrule.report(chk, fx, lambda q: q.startswith("ctpg::regex::dfa_builder") or q.startswith(P + "state_analyzer"),
                    "automaton builder and state analyzer", 10)
